@@ -72,7 +72,9 @@ Definition thread_inv (s : gst) (t : Z) : Prop :=
   (slp s t = Sleeping ->
      pcs s t = PWSleep /\
      exists o, owner s = Some o /\
-       ((word s = W o /\ (pcs s o = PCall \/ pcs s o = PInCall \/ pcs s o = PMark)) \/ pcs s o = PWake)).
+       ((word s = W o /\ (pcs s o = PCall \/ pcs s o = PInCall \/ pcs s o = PMark)) \/ pcs s o = PWake)) /\
+  (* the inline fast path returns only after it read ~0l, and then the initialiser has finished *)
+  (pcs s t = PFRet -> finished s = true).
 
 Definition Inv (s : gst) : Prop :=
   owner_inv s /\ early_ret s = false /\ forall t, thread_inv s t.
@@ -108,10 +110,10 @@ Lemma other_thread s s' t u :
   (forall o, owner s = Some o -> slp s' u = Sleeping -> wake_premise s o -> wake_premise s' o) ->
   thread_inv s' u.
 Proof.
-  intros Ne (U1 & U2 & U3 & U4 & U5) Fp Fs Ho Hf Hw. unfold thread_inv. rewrite Fp.
+  intros Ne (U1 & U2 & U3 & U4 & U5 & U6) Fp Fs Ho Hf Hw. unfold thread_inv. rewrite Fp.
   assert (Hown : forall o, owner s = Some o -> owner s' = Some o).
   { intros o E. destruct Ho as [Ho|Ho]; congruence. }
-  split; [|split; [|split; [|split]]].
+  split; [|split; [|split; [|split; [|split]]]].
   - intros H. apply Hown. auto.
   - intros old H. destruct (U2 old H) as (o & E & D). exists o. split; [auto|]. intuition.
   - intros v H. destruct (U3 v H) as (o & E & D). exists o. auto.
@@ -119,6 +121,7 @@ Proof.
   - intros H. destruct Fs as [Es|Es]; [|contradiction].
     pose proof H as H'. rewrite Es in H. destruct (U5 H) as (X & o & E & D). split; [exact X|].
     exists o. split; [auto|]. apply (Hw o E H' D).
+  - intros H. apply Hf. apply U6. exact H.
 Qed.
 
 (* a thread outside the owner path moves; word, owner and ghosts are untouched *)
@@ -147,7 +150,7 @@ Proof.
 Qed.
 
 Lemma not_sleeping_here s t p : thread_inv s t -> pcs s t = p -> p <> PWSleep -> slp s t <> Sleeping.
-Proof. intros (_ & _ & _ & _ & T5) E Hn Hs. destruct (T5 Hs) as [X _]. congruence. Qed.
+Proof. intros (_ & _ & _ & _ & T5 & _) E Hn Hs. destruct (T5 Hs) as [X _]. congruence. Qed.
 
 (* where the owner stands when the word is not DONE *)
 Lemma owner_active s o : owner_inv s -> owner s = Some o -> word s <> DONE ->
@@ -186,15 +189,42 @@ Lemma step_preserves s t e s' : valid_tid t -> Inv s -> gstep s t e = Some s' ->
 Proof.
   intros Vt HI Hs. pose proof HI as (HO & HE & HT). unfold gstep in Hs.
   destruct (tstep t (pcs s t) e) as [p'|] eqn:Hts; [|discriminate].
-  pose proof (HT t) as Ht. pose proof Ht as (Tt1 & Tt2 & Tt3 & Tt4 & Tt5).
+  pose proof (HT t) as Ht. pose proof Ht as (Tt1 & Tt2 & Tt3 & Tt4 & Tt5 & Tt6).
   pose proof (valid_W t Vt) as (Vt0 & Vt1 & Vt2 & Vt3 & Vt4 & Vt5 & Vt6 & Vt7 & Vt8).
   destruct (pcs s t) eqn:Hpc; cbn [tstep] in Hts; cbv zeta in Hs.
-  - (* PIdle: a new call *)
+  - (* PIdle: a new call, directly or through the inline wrapper *)
     destruct (ev_kind e DVU_CALL); [|discriminate]. injection Hts as <-. injection Hs as <-.
+    destruct (ea e =? CALL_INLINE).
+    all: apply local_move; auto; [rewrite Hpc; reflexivity|].
+    all: unfold thread_inv; cbn; rewrite upd_same.
+    all: repeat split; try discriminate; try (intros ? ?; discriminate); try (intros [?|?]; discriminate).
+    all: nosleep s t PIdle Ht Hpc.
+  - (* PFast: the plain read of the inline wrapper *)
+    destruct (ev_is e DV_LOAD MO_PLAIN 0); [|discriminate]. injection Hts as <-.
+    destruct (Z.eqb_spec (ea e) (word s)) as [Ea|]; [|discriminate]. injection Hs as <-.
+    destruct (Z.eqb_spec (ea e) DONE) as [Ed|Nd].
+    + (* it saw ~0l: the initialiser has finished *)
+      assert (Fin : finished s = true).
+      { rewrite Ea in Ed. unfold owner_inv in HO. destruct (owner s) as [o|].
+        - destruct HO as [Vo HO]. destruct (valid_W o Vo) as (V0 & V1 & V2 & V3 & _).
+          destruct (pcs s o); try (destruct HO as (_ & _ & F); exact F); destruct HO as ([X|X] & _); congruence.
+        - destruct HO as (X & _). rewrite X in Ed. discriminate. }
+      apply local_move; auto; [rewrite Hpc; reflexivity|].
+      unfold thread_inv; cbn. rewrite upd_same.
+      repeat split; try discriminate; try (intros ? ?; discriminate); try (intros [?|?]; discriminate); try (intros _; exact Fin).
+      all: nosleep s t PFast Ht Hpc.
+    + apply local_move; auto; [rewrite Hpc; reflexivity|].
+      unfold thread_inv; cbn. rewrite upd_same.
+      repeat split; try discriminate; try (intros ? ?; discriminate); try (intros [?|?]; discriminate).
+      all: nosleep s t PFast Ht Hpc.
+  - (* PFRet: the fast path returns *)
+    destruct (ev_kind e DVU_RET); [|discriminate]. injection Hts as <-. injection Hs as <-.
+    replace (early_ret s || negb (finished s)) with (early_ret s)
+      by (rewrite (Tt6 eq_refl); destruct (early_ret s); reflexivity).
     apply local_move; auto; [rewrite Hpc; reflexivity|].
     unfold thread_inv; cbn. rewrite upd_same.
     repeat split; try discriminate; try (intros ? ?; discriminate); try (intros [?|?]; discriminate).
-    all: nosleep s t PIdle Ht Hpc.
+    all: nosleep s t PFRet Ht Hpc.
   - (* PTry: tryenter *)
     destruct (ev_is e DV_CAS MO_RELAXED 0 && (eb e =? t)) eqn:C; [|discriminate]. injection Hts as <-.
     destruct ((ea e =? word s) && (eok e =? (if word s =? 0 then 1 else 0))) eqn:C2; [|discriminate].
@@ -265,7 +295,7 @@ Proof.
         split; [auto|]. split; [intros ? X; destruct (u32 (ea e) =? t); discriminate X|].
         split; [intros ? X; destruct (u32 (ea e) =? t); discriminate X|].
         split; [intros [X|X]; destruct (u32 (ea e) =? t); discriminate X|].
-        nosleep s t PMark Ht Hpc.
+        split; [nosleep s t PMark Ht Hpc|]. intros X; destruct (u32 (ea e) =? t); discriminate X.
       * apply (other_thread s _ t u Ne (HT u)); cbn; auto.
         -- apply upd_other; exact Ne.
         -- intros o Eo _ Hw. assert (o = t) by congruence. subst o. unfold wake_premise in *; cbn. rewrite upd_same.
@@ -336,7 +366,7 @@ Proof.
            ++ unfold thread_inv; cbn. rewrite upd_same.
               split; [discriminate|]. split; [intros ? X; discriminate X|].
               split; [intros v X; injection X as <-; exists o; auto|].
-              split; [intros [X|X]; discriminate X|]. nosleep s t (PWBody o) Ht Hpc.
+              split; [intros [X|X]; discriminate X|]. split; [nosleep s t (PWBody o) Ht Hpc|discriminate].
            ++ apply (other_thread s _ t u Ne (HT u)); cbn; auto.
               ** apply upd_other; exact Ne.
               ** intros o' Eo' _ Hwp. assert (o' = o) by congruence. subst o'. unfold wake_premise in *; cbn.
@@ -355,7 +385,7 @@ Proof.
       apply local_move; auto; [rewrite Hpc; reflexivity | intros u Ne; apply upd_other; exact Ne |].
       unfold thread_inv; cbn. rewrite !upd_same.
       split; [discriminate|]. split; [intros ? X; discriminate X|]. split; [intros ? X; discriminate X|].
-      split; [intros _; congruence|].
+      split; [intros _; congruence|]. split; [|discriminate].
       intros Hsl. split; [reflexivity|]. exists o. split; [exact Eo|].
       rewrite Cv in Hsl. pose proof (sleep_clause s o (W o) HO Eo eq_refl Hsl) as Hwp.
       unfold wake_premise in *. destruct (Z.eq_dec o t) as [->|Ne2].
@@ -377,7 +407,7 @@ Proof.
     apply local_move; auto; [rewrite Hpc; reflexivity | intros u Ne; apply upd_other; exact Ne |].
     unfold thread_inv; cbn. rewrite !upd_same.
     split; [discriminate|]. split; [intros ? X; discriminate X|]. split; [intros ? X; discriminate X|].
-    split; [intros _; congruence|].
+    split; [intros _; congruence|]. split; [|discriminate].
     intros Hsl. split; [reflexivity|]. exists o. split; [exact Eo|].
     rewrite Cv in Hsl. pose proof (sleep_clause s o (W o) HO Eo eq_refl Hsl) as Hwp.
     unfold wake_premise in *. destruct (Z.eq_dec o t) as [->|Ne2].
@@ -388,7 +418,7 @@ Proof.
     apply local_move; auto; [rewrite Hpc; reflexivity | intros u Ne; apply upd_other; exact Ne |].
     unfold thread_inv; cbn. rewrite !upd_same.
     split; [discriminate|]. split; [intros ? X; discriminate X|]. split; [intros ? X; discriminate X|].
-    split; [intros _; apply Tt4; auto|]. discriminate.
+    split; [intros _; apply Tt4; auto|]. split; discriminate.
 Qed.
 
 (* ---- consequences ---- *)
@@ -424,6 +454,9 @@ Proof.
   unfold ev_kind in Hk. apply Z.eqb_eq in Hk.
   destruct (pcs s t) eqn:Hpc; cbn [tstep] in Hts; cbv zeta in Hs;
     try (unfold ev_kind, ev_is in Hts; rewrite Hk in Hts; cbn in Hts; discriminate).
+  - (* the inline fast path *)
+    destruct (ev_kind e DVU_RET); [|discriminate]. injection Hs as <-. cbn in E. rewrite E0 in E.
+    destruct (finished s); [reflexivity|discriminate].
   - destruct (ev_kind e DVU_RET); [|discriminate]. injection Hs as <-. cbn in E. rewrite E0 in E.
     destruct (finished s); [reflexivity|discriminate].
   - destruct (once_wait_loop 0 old) as [? ?|r l| |] eqn:B; try discriminate.
@@ -440,7 +473,7 @@ Qed.
 Lemma sleeper_has_waker s t : reach s -> slp s t = Sleeping ->
   exists o, owner s = Some o /\ wake_premise s o.
 Proof.
-  intros R Hs. destruct (inv_reach s R) as (_ & _ & HT). destruct (HT t) as (_ & _ & _ & _ & T5).
+  intros R Hs. destruct (inv_reach s R) as (_ & _ & HT). destruct (HT t) as (_ & _ & _ & _ & T5 & _).
   destruct (T5 Hs) as (_ & o & E & D). exists o. auto.
 Qed.
 
@@ -459,7 +492,7 @@ Qed.
 Lemma done_stable s t e s' : reach s -> valid_tid t -> word s = DONE -> gstep s t e = Some s' ->
   word s' = DONE /\ (slp s' t = Sleeping -> slp s t = Sleeping).
 Proof.
-  intros R Vt Hd Hs. destruct (inv_reach s R) as (HO & _ & HT). destruct (HT t) as (T1 & T2 & T3 & T4 & T5).
+  intros R Vt Hd Hs. destruct (inv_reach s R) as (HO & _ & HT). destruct (HT t) as (T1 & T2 & T3 & T4 & T5 & T6).
   assert (Hown : forall o, owner s = Some o -> pcs s o <> PCall /\ pcs s o <> PInCall /\ pcs s o <> PMark).
   { intros o Eo. unfold owner_inv in HO. rewrite Eo in HO. destruct HO as [Vo HO].
     destruct (valid_W o Vo) as (V0 & V1 & V2 & V3 & _).
@@ -467,6 +500,8 @@ Proof.
   unfold gstep in Hs. destruct (tstep t (pcs s t) e) as [p'|] eqn:Hts; [|discriminate].
   destruct (pcs s t) eqn:Hpc; cbn [tstep] in Hts; cbv zeta in Hs.
   - injection Hs as <-. cbn. auto.
+  - (* PFast *) destruct (ea e =? word s); [|discriminate]. injection Hs as <-. cbn. auto.
+  - (* PFRet *) injection Hs as <-. cbn. auto.
   - destruct ((ea e =? word s) && _); [|discriminate]. injection Hs as <-. cbn.
     rewrite Hd. cbn. auto.
   - exfalso. destruct (Hown t (T1 eq_refl)) as (X & _). congruence.
@@ -519,4 +554,48 @@ Proof.
     | (if ?c then _ else None) = Some _ => destruct c; [|discriminate]
     | (match ?x with _ => _ end) = Some _ => destruct x; try discriminate
     end; injection Hs as <-; cbn; rewrite upd_same; reflexivity.
+Qed.
+
+(* ---- the inline fast path of dispatch/once.h ---- *)
+(* the fact the plain read relies on: the gate word is ~0l only after the initialiser has finished (and ran once) *)
+Lemma done_implies_finished s : reach s -> word s = DONE -> finished s = true /\ starts s = 1.
+Proof.
+  intros R Hd. destruct (inv_reach s R) as (HO & _ & _). unfold owner_inv in HO.
+  destruct (owner s) as [o|].
+  - destruct HO as [Vo HO]. destruct (valid_W o Vo) as (V0 & V1 & V2 & V3 & _).
+    destruct (pcs s o); try (destruct HO as (_ & S & F); split; assumption);
+      destruct HO as ([X|X] & _); congruence.
+  - destruct HO as (X & _). rewrite X in Hd. discriminate.
+Qed.
+(* a caller on its way out through the fast path: the initialiser has finished; it takes that way only after reading ~0l *)
+Lemma fast_return_after_finish s t : reach s -> pcs s t = PFRet -> finished s = true /\ starts s = 1.
+Proof.
+  intros R Hp. pose proof (inv_reach s R) as (HO & _ & HT). destruct (HT t) as (_ & _ & _ & _ & _ & T6).
+  pose proof (T6 Hp) as F. split; [exact F|].
+  destruct (exactly_once s R) as (_ & X & _). exact (X F).
+Qed.
+Lemma fast_path_reads_done s t e s' : gstep s t e = Some s' -> pcs s t = PFast ->
+  ea e = word s /\ (pcs s' t = PFRet <-> word s = DONE) /\ (pcs s' t = PFRet \/ pcs s' t = PTry) /\ word s' = word s.
+Proof.
+  unfold gstep. intros H Hp. rewrite Hp in H. cbn [tstep] in H.
+  destruct (ev_is e DV_LOAD MO_PLAIN 0); [|discriminate]. cbv zeta in H.
+  destruct (Z.eqb_spec (ea e) (word s)) as [Ea|]; [|discriminate]. injection H as <-. cbn. rewrite upd_same.
+  split; [exact Ea|]. rewrite Ea. destruct (Z.eqb_spec (word s) DONE); repeat split; auto; try tauto; intros X; discriminate X.
+Qed.
+(* the word the owner exchanges for DONE is its own lock value, with or without the waiters bit: the "lock not owned by
+   current thread" crash of _dispatch_gate_broadcast_slow is unreachable *)
+Lemma mark_word_is_owners s o : reach s -> valid_tid o -> pcs s o = PMark -> owner s = Some o /\ (word s = o \/ word s = W o).
+Proof.
+  intros R Vo Hp. pose proof (inv_reach s R) as (HO & _ & HT). destruct (HT o) as (T1 & _).
+  assert (E : owner s = Some o) by (apply T1; rewrite Hp; reflexivity). split; [exact E|].
+  unfold owner_inv in HO. rewrite E, Hp in HO. tauto.
+Qed.
+(* the conformance automaton is the thread automaton plus the one hidden plain read *)
+Lemma tstep_vis_sound self p e p' : tstep_vis self p e = Some p' ->
+  tstep self p e = Some p' \/ exists v p1, tstep self p (ev_plain_load v) = Some p1 /\ tstep self p1 e = Some p'.
+Proof.
+  destruct p; cbn [tstep_vis]; intros H; try (left; exact H). right.
+  destruct (ev_kind e DVU_RET).
+  - exists DONE, PFRet. split; [reflexivity|exact H].
+  - exists 0, PTry. split; [reflexivity|exact H].
 Qed.
